@@ -173,28 +173,28 @@ strategy_check!(fd_i16_n3, FreedmanDiaconis, i16, i32, 3, 14);
 strategy_check!(auto_i16_n3, Auto, i16, i32, 3, 14);
 strategy_check!(sqrt_i8_n2, Sqrt, i8, i32, 2, 14);
 
-//@ prop=C12,C17 tier=quick mem=6 timeout=3000 flags=stub inst="Sqrt<i16>::from_array / build / n_bins / bin_width on Array1<i16> len 3" bounds="all data with spread <= 12 and |v| <= 100; unwind 16"
+//@ prop=C12,C17:thorough tier=quick mem=6 timeout=3000 flags=stub inst="Sqrt<i16>::from_array / build / n_bins / bin_width on Array1<i16> len 3" bounds="all data with spread <= 12 and |v| <= 100; unwind 16"
 #[kani::proof]
 #[kani::unwind(16)]
 #[kani::stub(core::slice::sort::unstable::sort, model_sort)]
 fn c12_sqrt_i16_n3() {
     sqrt_i16_n3();
 }
-//@ prop=C12,C17 tier=quick mem=4 timeout=1800 flags=stub inst="Sqrt<i16> on a single observation" bounds="len 1 (always constant => Strategy); unwind 16"
+//@ prop=C12,C17:thorough tier=quick mem=4 timeout=1800 flags=stub inst="Sqrt<i16> on a single observation" bounds="len 1 (always constant => Strategy); unwind 16"
 #[kani::proof]
 #[kani::unwind(16)]
 #[kani::stub(core::slice::sort::unstable::sort, model_sort)]
 fn c12_sqrt_i16_n1() {
     sqrt_i16_n1();
 }
-//@ prop=C12,C17 tier=quick mem=6 timeout=3000 flags=stub inst="Rice<i16> on Array1<i16> len 3 (powf: CBMC's over-approximating model, so a superset of the real bin counts)" bounds="all data with spread <= 12; unwind 16"
+//@ prop=C12,C17:thorough tier=quick mem=6 timeout=3000 flags=stub inst="Rice<i16> on Array1<i16> len 3 (powf: CBMC's over-approximating model, so a superset of the real bin counts)" bounds="all data with spread <= 12; unwind 16"
 #[kani::proof]
 #[kani::unwind(16)]
 #[kani::stub(core::slice::sort::unstable::sort, model_sort)]
 fn c12_rice_i16_n3() {
     rice_i16_n3();
 }
-//@ prop=C12,C17 tier=quick mem=6 timeout=3000 flags=stub inst="Sturges<i16> on Array1<i16> len 3 (log2: CBMC's over-approximating model)" bounds="all data with spread <= 12; unwind 16"
+//@ prop=C12,C17:thorough tier=quick mem=6 timeout=3000 flags=stub inst="Sturges<i16> on Array1<i16> len 3 (log2: CBMC's over-approximating model)" bounds="all data with spread <= 12; unwind 16"
 #[kani::proof]
 #[kani::unwind(16)]
 #[kani::stub(core::slice::sort::unstable::sort, model_sort)]
